@@ -30,7 +30,67 @@ def predicted(cx, cls):
         t = outs[0][0][0][0]
         a, b = (outs[0][1], outs[1][1]) if outs[0][0][0][1] else (outs[1][1], outs[0][1])
         return fn, nz.norm(ast.IfExp(test=t, body=a, orelse=b))
-    return fn, [(c, r) for c, r in outs]
+    # several guarded results: the branches that a spec-valid quantity can take decide (a guard that only sets aside quantities the
+    # server refuses anyway changes nothing for a conformant exchange).  The guards are folded for the boundary values of the
+    # quantity field(s); a branch no valid boundary value reaches is ignored.
+    from spec.tables import LIMITS
+    fc = cx.ce.try_ev(ast.Name(id='function_code', ctx=ast.Load()), cls.mod, cls)
+    lims = LIMITS.get(fc)
+    attrs = sorted({n.attr for conds, r in outs for c, a in conds for n in ast.walk(c) if isinstance(n, ast.Attribute) and isinstance(n.value, ast.Name) and n.value.id == 'self'})
+    if lims and len(attrs) == 1 and len(lims) == 1:
+        lo, hi = lims[0][1], lims[0][2]
+
+        class Sub(ast.NodeTransformer):
+            def __init__(self, v):
+                self.v = v
+
+            def visit_Attribute(self, n):
+                if isinstance(n.value, ast.Name) and n.value.id == 'self' and n.attr == attrs[0]:
+                    return ast.Constant(value=self.v)
+                return self.generic_visit(n)
+        import copy
+        live = []
+        for conds, r in outs:
+            reach = False
+            for v in sorted({lo, lo + 1, (lo + hi) // 2, hi - 1, hi}):
+                ok = True
+                for c, a in conds:
+                    t = cx.ce.try_ev(Sub(v).visit(copy.deepcopy(c)), fn.mod, cls, default='?')
+                    if t == '?':
+                        ok = None
+                        break
+                    if bool(t) != a:
+                        ok = False
+                        break
+                if ok is None or ok:
+                    reach = True
+                    break
+            if reach:
+                live.append((conds, r))
+        if live:
+            common = None
+            for conds, r in live:
+                ks = {(U(c), a) for c, a in conds}
+                common = ks if common is None else (common & ks)
+            live = [([(c, a) for c, a in conds if (U(c), a) not in common], r) for conds, r in live]
+        polys = set()
+        for conds, r in live:
+            try:
+                polys.add(nz.norm(r))
+            except Exception:
+                polys.add(None)
+        if len(polys) == 1 and None not in polys:
+            return fn, polys.pop()
+        if len(live) == 2 and len(live[0][0]) == 1 and len(live[1][0]) == 1 and U(live[0][0][0][0]) == U(live[1][0][0][0]) and live[0][0][0][1] != live[1][0][0][1]:
+            t = live[0][0][0][0]
+            a, b = (live[0][1], live[1][1]) if live[0][0][0][1] else (live[1][1], live[0][1])
+            try:
+                return fn, nz.norm(ast.IfExp(test=t, body=a, orelse=b))
+            except Exception:
+                pass
+        outs = live or outs
+    return fn, '; '.join('%s when %s' % (U(r) if r is not None else None, ' and '.join(('%s' if a else 'not (%s)') % U(c) for c, a in conds) or 'always')
+                         for conds, r in outs)
 
 
 def response_length(cx, rcls, call, req_nz):
